@@ -32,12 +32,18 @@ def run(ctx, replay=None):
     ctx.count('histories-with-injected-failure', len(gi))
     for h, recs in good[:: max(1, len(good) // 4)]:
         sample_hist(ctx, h, recs)
-    if not quick:
+    if True:
+        # quick tier: the sanitizer build runs the histories that hand the container's own pointers back to it (reads of freed
+        # memory that are not copies are invisible to the wrapped allocator) and a sample of the rest; thorough: everything
         exa, msg = ctx.cc('h_api_asan', CORE_SRCS, ['h_api.c'], wrap=WRAP, san='asan', cflags=('-DQV_ASAN',))
         if exa is None:
             ctx.broken.append(('obligation:build-asan', msg))
         else:
-            res, found = run_asan(ctx, exa, H + inj[::2], 'C11')
+            if quick:
+                sel = [h for h in H if str(h.target).startswith('putself')] + H[::25] + inj[::10]
+            else:
+                sel = H + inj[::2]
+            res, found = run_asan(ctx, exa, sel, 'C11')
             ctx.count('asan-histories', len(res))
             for h, kind, err, _ in found:
                 ctx.report('impl-vs-property', {'container': h.typ, 'observed': 'sanitizer', 'kind': kind.split(':')[-1].strip()}, 'sanitizer report: ' + kind, {'ops': h.lines(), 'stderr': err})
